@@ -338,7 +338,8 @@ def p1_job(run, name, module, scope, profile="dev", workers=5, timeout=1500, non
         env["TABLE2"] = tb2
     if extra_env:
         env.update(extra_env)
-    res = run_tlc(module, cfgfile, env, wd, workers=workers, timeout=timeout)
+    big = os.path.getsize(tb) + (os.path.getsize(env["TABLE2"]) if "TABLE2" in env else 0)
+    res = run_tlc(module, cfgfile, env, wd, workers=workers, timeout=timeout, heap="4g" if big < 60_000_000 else "14g")
     a = len(scope["alphabet"])
     ncells = (len(scope["cfgs"]) // cfg_fraction) * sum(a ** l for l in range(scope["maxlen"] + 1))
     if res["distinct"] != ncells:
